@@ -2,6 +2,7 @@
   Line-protocol driver of the executable model (imports model files only; no Mathlib, no proofs).
   One request per line on stdin, one reply per line on stdout.
 -/
+import ImapVerif.Frames
 import ImapVerif.Grammar.Rfc3501
 import ImapVerif.Show
 import ImapVerif.Builders
@@ -154,8 +155,41 @@ def showSession (r w c : String) : String :=
       " RBUF=" ++ toHex conn.rd.rbuf
   | _, _, _ => "bad-op"
 
+/-! ### ownership histories (C07) -/
+
+def ownOpOf (t : String) : Option Own.Op :=
+  match t.splitOn ":" with
+  | ["ri", n, c] => do some (.recvInPlace (← n.toNat?) (← c.toNat?))
+  | ["rs", n, o, c] => do some (.recvShift (← n.toNat?) (← o.toNat?) (← c.toNat?))
+  | ["rn", n, c] => do some (.recvNew (← n.toNat?) (← c.toNat?))
+  | ["d", n] => do some (.deliver (← n.toNat?))
+  | ["df", h] => do some (.dropFrame (← h.toNat?))
+  | ["db"] => some .dropBuf
+  | _ => none
+
+def showOwnSt (s : Own.St) (e : Own.Eff) : String :=
+  let w := match s.win with
+    | some w => s!"{w.a},{w.off},{w.len}"
+    | none => "-"
+  let fs := s.frames.reverse.map fun f => s!"{f.h},{f.a},{f.off},{f.len}"
+  let fr := e.freed.map toString
+  s!"W={w}/F={"+".intercalate fs}/X={"+".intercalate fr}"
+
+def ownGo : List Own.Op → Own.St → List String → List String
+  | [], _, acc => acc.reverse
+  | op :: rest, s, acc =>
+    match Own.step s op with
+    | none => ("inadmissible" :: acc).reverse
+    | some (s', e) => ownGo rest s' (showOwnSt s' e :: acc)
+
+def showOwn (t : String) : String :=
+  match listOf ownOpOf t with
+  | some ops => "|".intercalate (ownGo ops {} [])
+  | none => "bad-op"
+
 def step (line : String) : String :=
   match line.trimAscii.toString.splitOn " " with
+  | ["own", t] => showOwn t
   | ["frames", r, n] => showFrames r n
   | ["session", r, w, c] => showSession r w c
   | ["owned", h] => showOwned (ofHex h)
